@@ -200,7 +200,14 @@ def install(e, record=()):
 
     def pk_eq(e_, callee, args, path):
         a, b = e_.deref(args[0]), e_.deref(args[1])
-        r = T.cmp('=', a.t, b.t)
+        def as_key(x):
+            # a named Pubkey constant (e.g. `token::ID`): one fixed value per name (distinct names: distinct values above every havocked-key range is not needed, only determinism)
+            if isinstance(x, (E, Opaque)):
+                import hashlib
+                nm = x.var if isinstance(x, E) else str(x.data or x.tag)
+                return C((1 << 255) + int(hashlib.sha1(nm.encode()).hexdigest(), 16))
+            return x.t
+        r = T.cmp('=', as_key(a), as_key(b))
         yield path, B(r if callee.endswith('::eq') else T.not_(r))
     S_.append((re.compile(r'<__Pubkey as PartialEq>::(eq|ne)$|<anchor_lang::prelude::Pubkey as PartialEq>::(eq|ne)$'), pk_eq))
 
